@@ -219,6 +219,13 @@ package rtpconn
 //@   -- C01: an emitted in-order packet carries the number the map assigned: its source number minus the packets withheld
 //@   ensures number: down.emitted == old(down.emitted) + 1 && (old(packetmap.pristine(&down.packetmap)) || old(packetmap.inorder(&down.packetmap, pf(down, buf).Seqno))) ==>
 //@        down.outSeq == old(pf(down, buf)).Seqno - old(down.packetmap.dropped)
+//@   -- the flags are those of the packet itself (links the abstract flags to the bytes for callers)
+//@   ensures flags-seqno: len(buf) >= 4 ==> old(pf(down, buf)).Seqno == ((uint16(old(buf[2])) << 8) | uint16(old(buf[3])))
+//@   ensures short-nothing: len(buf) < 4 ==> down.emitted == old(down.emitted)
+//@   -- C03: a late copy (retransmission) of a packet of the newest interval is emitted under the number it got the first time
+//@   ensures late-number: down.emitted == old(down.emitted) + 1 && !old(packetmap.pristine(&down.packetmap)) && old(packetmap.late(&down.packetmap, pf(down, buf).Seqno))
+//@        && old(packetmap.covers(packetmap.last(&down.packetmap), pf(down, buf).Seqno)) ==>
+//@        down.outSeq == old(pf(down, buf)).Seqno + old(packetmap.last(&down.packetmap).delta)
 //@   -- C02: VP8 picture ids stay consecutive: an emitted in-order packet carries its source picture id minus the number of
 //@   --      frames withheld before it (mod 2^15, or 2^7 for the short form)
 //@   ensures pid15: down.emitted == old(down.emitted) + 1 && len(buf) >= 12 && strings.EqualFold(mime(down), "video/vp8") && old(codecs.haspid(buf)) && old(codecs.vm(buf))
@@ -229,3 +236,46 @@ package rtpconn
 //@        down.outPid7 == ((old(codecs.pid7(buf)) - uint8(old(down.packetmap.droppedFrames))) & 0x7F)
 //@   -- C02: the cached packet handed to Write is never modified
 //@   ensures input-kept: forall k int :: 0 <= k && k < len(buf) ==> buf[k] == old(buf[k])
+//@
+//@ -- ------------------------------------------------------------------ retransmission (C03)
+//@ iface conn.UpTrack.GetPacket
+//@   why conn.UpTrack: copies a cached packet into result and returns its length, or returns 0 (and may schedule an upstream NACK);
+//@        the cache stores each packet under the sequence number in its own header (rtpreader.readLoop stores
+//@        packet.SequenceNumber with the bytes it was parsed from; packetcache.Get returns exactly a stored packet, C05)
+//@   modifies full(result)
+//@   ensures length: int(result0) <= len(result) && result0 <= 1504
+//@   ensures own-seqno: result0 >= 4 ==> ((uint16(result[2]) << 8) | uint16(result[3])) == seqno
+//@ extern (github.com/pion/rtcp.NackPair).Range
+//@   why pion/rtcp: calls f for the packet id and for each set bit of the bitmask, until f returns false; effects are those of f
+//@   modifies *
+//@
+//@ -- the closure that serves one NACKed sequence number s
+//@ func gotNACK$1
+//@   safe
+//@   props C03 C12
+//@   requires nonnil: track != nil && dtwf(track) && track.remote != nil && track.track != nil
+//@   requires map-wf: !held(track.packetmap.mu) && packetmap.wf(&track.packetmap) && packetmap.contiguous(&track.packetmap)
+//@   requires buffer: len(buf) == 1504 && !isnil(buf)
+//@   assume rely-inv: invw(track.atomics.layerInfo)
+//@   modifies track.atomics.layerInfo, *track.rate, track.packetmap, full(track.packetmap.entries), track.emitted, track.outSeq, track.outPid15, track.outPid7, full(buf)
+//@   -- proof step: once Reverse has answered, the requested number lies in the image of some interval
+//@   assert at call GetPacket#1 known: old(packetmap.pristine(&track.packetmap))
+//@        || (exists k int :: 0 <= k && k < len(old(track.packetmap.entries)) && old(packetmap.tcovers(track.packetmap.entries[k], s)))
+//@   ensures map-wf: !held(track.packetmap.mu) && packetmap.wf(&track.packetmap)
+//@   -- C03: a number the table does not know (never sent, withheld, or forgotten) is answered with nothing
+//@   ensures unknown-nothing: track.emitted == old(track.emitted) + 1 ==> old(packetmap.pristine(&track.packetmap))
+//@        || (exists k int :: 0 <= k && k < len(old(track.packetmap.entries)) && old(packetmap.tcovers(track.packetmap.entries[k], s)))
+//@   ensures at-most-one: track.emitted == old(track.emitted) || track.emitted == old(track.emitted) + 1
+//@   -- C03: what is resent under a number of the newest interval carries exactly that number
+//@   ensures same-number: track.emitted == old(track.emitted) + 1 && !old(packetmap.pristine(&track.packetmap))
+//@        && old(packetmap.tcovers(packetmap.last(&track.packetmap), s)) && old(packetmap.last(&track.packetmap).count) <= 0x4000
+//@        && old(track.packetmap.next) - (s - old(packetmap.last(&track.packetmap).delta)) <= 8192 && old(track.packetmap.next) != s - old(packetmap.last(&track.packetmap).delta) ==>
+//@        track.outSeq == s
+//@
+//@ func gotNACK
+//@   safe
+//@   props C03 C12
+//@   requires nonnil: track != nil && p != nil && dtwf(track) && track.remote != nil && track.track != nil
+//@   requires map-wf: !held(track.packetmap.mu) && packetmap.wf(&track.packetmap) && packetmap.contiguous(&track.packetmap)
+//@   modifies *
+//@   invariant loop 1 range: -1 <= rangeindex && rangeindex < old(len(p.Nacks))
